@@ -68,6 +68,7 @@ def _base(rng):
         "data": rng.choice(["synthetic", "synthetic", "asset"]),
         "epochs": rng.choice([1, 1, 2]),
         "scale": 0.25,
+        "low_memory": rng.random() < 0.15,
     }
 
 
@@ -100,7 +101,7 @@ def gen_plan(rng, index, tier):
 
 def describe(plan):
     return {k: plan[k] for k in ("model_type", "fw", "use_wandb", "wandb_mode", "save_ckpt", "save_last", "delete_chunks",
-                                 "origin", "explicit_chunks", "tmp_same_fs", "data", "epochs", "mode", "fault_at")}
+                                 "origin", "explicit_chunks", "tmp_same_fs", "data", "epochs", "mode", "fault_at", "low_memory")}
 
 
 def shrink(plan):
@@ -135,6 +136,8 @@ def shrink(plan):
         yield mod(tmp_same_fs=False)
     if not plan["delete_chunks"]:
         yield mod(delete_chunks=True)
+    if plan.get("low_memory"):
+        yield mod(low_memory=False)
     if plan["model_type"] != "centroid":
         yield mod(model_type="centroid")
     if plan.get("fault_at"):
@@ -185,7 +188,7 @@ def execute(plan, choices=None):
         survivors = []
         if crashed:
             # the process is dead; only durable state is left
-            roots = [os.path.join(root, "out")] + ([os.path.join(root, "chunks")] if plan["explicit_chunks"] else [])
+            roots = [os.path.join(root, "out"), os.path.join(root, "cwd")] + ([os.path.join(root, "chunks")] if plan["explicit_chunks"] else [])
             needles = tw.needles_for(key)
             hits = []
             for pth in sorted(tw.tree_state(roots)):
@@ -226,13 +229,13 @@ def execute(plan, choices=None):
                         V("artifact_missing", "last.ckpt", f"save_last is on but last.ckpt is missing; files={res['files']}")
                     if not plan["save_ckpt"] and (art.get("best") or art.get("last")):
                         V("artifact_unexpected", "ckpt", f"checkpointing is off but a checkpoint exists; files={res['files']}")
-                    if plan["fw"] == "torch_dataset_np_chunks" and plan["delete_chunks"] and art.get("npz_left"):
+                    if (plan["fw"] == "torch_dataset_np_chunks" or res.get("fault_fired_low_memory")) and plan["delete_chunks"] and art.get("npz_left"):
                         V("chunks_left", "npz", f"chunk deletion requested but {art['npz_left']} remain; plan={describe(plan)}")
     finally:
         shutil.rmtree(root, ignore_errors=True)
 
     cls = "/".join(str(plan[k]) for k in ("model_type", "fw", "use_wandb", "wandb_mode", "save_ckpt", "save_last",
-                                           "delete_chunks", "origin", "explicit_chunks", "tmp_same_fs", "data", "epochs"))
+                                           "delete_chunks", "origin", "explicit_chunks", "tmp_same_fs", "data", "epochs", "low_memory"))
     events = (res or {}).get("events", [])
     faults = {}
     if crashed:
@@ -241,6 +244,8 @@ def execute(plan, choices=None):
         faults["disk_error"] = 1
     if res is not None:
         faults["virtual_crash_inspection"] = res.get("inspections", 0)
+        if res.get("fault_fired_low_memory"):
+            faults["low_memory"] = 1
     trace = repr((events, [v["sig"] for v in violations], crashed, sorted(survivors)))
     wrote = bool(events) or bool(survivors)
     fa = plan.get("fault_at") if (crashed or (res and res.get("fault_fired"))) else None
